@@ -71,6 +71,7 @@ def main(run):
         sc = rnd.choice([1.0, 1.0, 2.0 ** -40, 2.0 ** -60, 2.0 ** 40]) if typ in ("float", "np64", "np32", "Q", "arr0d") else 1.0
         base = ExponentialSmoothingTracker(alpha) if dyn else WelfordTracker()
         mt, twin = MultiValueTracker(base), MultiValueTracker(base)
+        mt_update = mt.update if h % 3 == 1 else None       # a bound method taken before the first update, used throughout
         base.update(conv(typ, 17, sc) if typ != "int" else 17)      # the user keeps using the base tracker object: must not matter
         ref = RefMulti(dyn, Q(alpha) if dyn else None)
         n = rnd.randrange(1, 61 if run.tier == "thorough" else 31)
@@ -100,20 +101,22 @@ def main(run):
             ctype = rnd.choice(["dict", "dict", "OrderedDict", "defaultdict-nonzero"])
             if ctype == "OrderedDict":
                 import collections
-                mt.update(collections.OrderedDict(real))
+                (mt_update or mt.update)(collections.OrderedDict(real))
             elif ctype == "defaultdict-nonzero":      # a dict subclass whose __missing__ would fabricate a non-zero value
                 import collections
                 dd = collections.defaultdict(lambda: conv(typ, 7, sc) if typ != "int" else 7)
                 dd.update(real)
-                mt.update(dd)
+                (mt_update or mt.update)(dd)
             else:
-                mt.update(dict(real))
+                (mt_update or mt.update)(dict(real))
             # twin: same values for keys[0], different history for the others
             twin.update({k: (v if k == keys[0] else conv(typ, 3, sc)) for k, v in real.items()})
             ref.add({k: Q(tofrac(v)) for k, v in real.items()})
             if set(upd) - set(seen_keys):
                 changed = changed or bool(seen_keys)
             seen_keys += [k for k in upd if k not in seen_keys]
+            if h % 4 == 2 and t != n - 1 and rnd.random() > 0.2:
+                continue            # sparse read schedule: statistics are read at a few random times only (lazy bookkeeping must not depend on reads)
             got = mt.get()
             exp = ref.get()
             tag = f"hist#{h} type={typ} base={'ES(%r)' % (alpha,) if dyn else 'Welford'} mode={mode} update {t + 1}"
